@@ -379,7 +379,7 @@ func runC13(x *core.Ctx) {
 				if sl.Big != nil && sl.Big(val) {
 					return true
 				}
-				return sl.N > 12 && val > 3 && val != sl.Primary // keep big list/reason domains small here
+				return sl.N > 20 && val > 3 && val != sl.Primary // keep big list/reason domains small here
 			}, func(v gen.Vec, nd int) bool { targets = append(targets, append(gen.Vec{}, v...)); return true })
 		}
 		for _, v := range targets {
